@@ -26,9 +26,11 @@ Qed.
 Theorem C25_analysed_sites_claims : Forall (fun a => s_claim a) analysed.
 Proof. exact analysed_claims_hold. Qed.
 
-(* (1c) the unrestricted statement "all render map ranges are order-insensitive" is refuted: four loops
-   of the current tree are order-sensitive (genuine defects, findings.json; three in dagre's container
-   spacing, one in the markdown variable substitution of the compile path) *)
+(* (1c) the unrestricted statement "all render map ranges are order-insensitive" is refuted: three loops
+   of the current tree are order-sensitive (genuine defects, findings.json: dagre's container spacing).
+   A fourth one (markdown variable substitution, compile path) was order-sensitive until it was repaired
+   in /repo (C08-block-string-variable-replace-order); the changed statement hash made theorem (1a) fail
+   until the new loop was analysed. *)
 Theorem C25_all_render_map_ranges_order_insensitive_refuted :
   exists r a, In r map_ranges /\ In a analysed /\ covers a r = true /\ s_verdict a = OrderSensitive /\ s_claim a.
 Proof.
@@ -39,10 +41,10 @@ Proof.
   exact s_range_over_growing_map_order_sensitive.
 Qed.
 
-(* the order-sensitive sites are exactly these four; everything else in the inventory is order-insensitive *)
+(* the order-sensitive sites are exactly these three; everything else in the inventory is order-insensitive *)
 Theorem C25_order_sensitive_sites_are :
   map (fun a => (s_func a, s_ord a)) (filter is_sensitive analysed)
-  = [("adjustRankSpacing", 0%nat); ("adjustRankSpacing", 1%nat); ("shiftReachableDown", 0%nat); ("replaceVariables", 0%nat)]%string.
+  = [("adjustRankSpacing", 0%nat); ("adjustRankSpacing", 1%nat); ("shiftReachableDown", 0%nat)]%string.
 Proof. vm_compute. reflexivity. Qed.
 
 (* side condition of site d2target.init, on the table of the current tree *)
